@@ -293,9 +293,11 @@ func (c *conn) serve() {
 	}()
 
 	defer func() {
+		// close the connection even if a finish callback panics
+		defer c.close()
+
 		// callback of finish connection
 		c.finish()
-		c.close()
 
 		if len(session.Proto) > 0 {
 			proxyState.ClientConnActiveDec(session.Proto, 1)
